@@ -1,6 +1,7 @@
 package worlds
 
 import (
+	"bytes"
 	"encoding/json"
 	"fmt"
 	"io"
@@ -136,6 +137,17 @@ func (s *IOFault) Run(env *core.Env, st *core.Stats) (vs []core.Violation) {
 			if o.call.panicked || o.call.timeout {
 				vs = append(vs, core.V("panic", panicKey(o.call.panicMsg), "WriteTo with failing destination at byte %d: %s", k, o.call.panicMsg))
 				return false
+			}
+			if o.err != nil && k%7 == 3 {
+				// the value is still good after a failed write: writing it again to a sound
+				// destination gives the complete file
+				st.Probe("write-again-after-a-failed-write")
+				d2 := &simio.Disk{Limit: -1}
+				o2 := writeTo(val, d2)
+				if o2.call.panicked || o2.err != nil || !bytes.Equal(d2.Stored, sf.data) {
+					vs = append(vs, core.V("write-after-failure", "second-write", "after a write that failed at byte %d, writing the same value again gives err=%v %s and %d bytes (the fault-free file has %d)", k, o2.err, o2.call.panicMsg, len(d2.Stored), S))
+					return false
+				}
 			}
 			if o.err == nil {
 				vs = append(vs, core.V("write-error-swallowed", "write:"+keyRegion(regionAt(k)),
